@@ -161,17 +161,6 @@ theorem Fr.modInst_ne (st : St) (i : Nat) (f : Inst → Inst) (hi : i ≠ 0)
   · rw [inst_modInst]; simp [hi]
   · rw [inst_modInst]; simp [hi]
 
-theorem evalReqs_fr (P : Prog) (first : Bool) (l : List Nat) : ∀ st : St, Fr st (evalReqs P first l st).1 := by
-  induction l with
-  | nil => intro st; exact Fr.refl _
-  | cons c rest ih =>
-    intro st
-    unfold evalReqs
-    simp only
-    split
-    · exact Fr.emit _ _
-    · exact (Fr.emit _ _).trans (ih _)
-
 theorem evalTermWhen_fr (P : Prog) (l : List Nat) : ∀ st : St, Fr st (evalTermWhen P l st).1 := by
   induction l with
   | nil => intro st; exact Fr.refl _
@@ -183,73 +172,58 @@ theorem evalTermWhen_fr (P : Prog) (l : List Nat) : ∀ st : St, Fr st (evalTerm
     · exact Fr.emit _ _
     · exact (Fr.emit _ _).trans (ih _)
 
-theorem checkReqs_fr (P : Prog) (S : Sem) (i : Nat) (st : St) : Fr st (checkReqs P S i st).1 := by
-  unfold checkReqs
-  simp only
-  have h0 : Fr st (if (P.scens.getD (st.inst i).cls default).reqAlways = true then st.emit (.q i) else st) := by
-    split
-    · exact Fr.emit _ _
-    · exact Fr.refl _
-  split
-  · exact h0.trans (evalReqs_fr _ _ _ _)
-  · exact h0
+theorem checkReqs_fr (P : Prog) (i : Nat) (st : St) : Fr st (checkReqs P i st) :=
+  Fr.of_insts (checkReqs_insts P i st).1
 
-theorem scen_fr (P : Prog) (S : Sem) (cf : Nat) (n : Nat) :
-    (∀ i st, i ≠ 0 → Fr st (stepScen P S cf n i st).1) ∧
-    (∀ i cls dyn cd st, Fr st (afterCompose P S cf n i cls dyn cd st).1) ∧
-    (∀ i out st, Fr st (composeHandle P S cf n i out st).1) ∧
-    (∀ i todo new s st, (WF st → 0 ∉ todo ∧ 0 ∉ new) → Fr st (invokeLoop P S cf n i todo new s st).1) := by
+theorem scen_fr (P : Prog) (cf : Nat) (n : Nat) :
+    (∀ i st, i ≠ 0 → Fr st (stepScen P cf n i st).1) ∧
+    (∀ i cls cd st, Fr st (afterCompose P cf n i cls cd st).1) ∧
+    (∀ i out st, Fr st (composeHandle P cf n i out st).1) ∧
+    (∀ i todo new s st, (WF st → 0 ∉ todo ∧ 0 ∉ new) → Fr st (invokeLoop P cf n i todo new s st).1) := by
   induction n with
   | zero =>
-    refine ⟨fun i st _ => ?_, fun i cls dyn cd st => ?_, fun i out st => ?_, fun i todo new s st _ => ?_⟩
+    refine ⟨fun i st _ => ?_, fun i cls cd st => ?_, fun i out st => ?_, fun i todo new s st _ => ?_⟩
     · unfold stepScen; exact Fr.fail _ _
     · unfold afterCompose; exact Fr.fail _ _
     · unfold composeHandle; exact Fr.fail _ _
     · unfold invokeLoop; exact Fr.fail _ _
   | succ n ih =>
     obtain ⟨ih1, ih2, ih3, ih4⟩ := ih
-    refine ⟨fun i st hi => ?_, fun i cls dyn cd st => ?_, fun i out st => ?_, fun i todo new s st hyp => ?_⟩
+    refine ⟨fun i st hi => ?_, fun i cls cd st => ?_, fun i out st => ?_, fun i todo new s st hyp => ?_⟩
     · simp only [stepScen]
-      have h := checkReqs_fr P S i st
-      generalize checkReqs P S i st = r at h ⊢
-      obtain ⟨st1, b⟩ := r
-      cases b with
-      | true => exact h.trans (Fr.fail _ _)
-      | false =>
-        simp only
+      have h := checkReqs_fr P i st
+      generalize checkReqs P i st = st1 at h ⊢
+      split
+      · exact h.trans ((stop_fr n).1 _ _)
+      · have h2 : Fr st (st1.modInst i fun x => { x with elapsed := x.elapsed + 1 }) :=
+          h.trans (Fr.modInst_ne st1 i _ hi (fun x hx => hx))
+        generalize (st1.modInst i fun x => { x with elapsed := x.elapsed + 1 }) = st2 at h2 ⊢
+        refine h2.trans ?_
         split
-        · exact h.trans ((stop_fr n).1 _ _)
-        · have h2 : Fr st (st1.modInst i fun x => { x with elapsed := x.elapsed + 1 }) :=
-            h.trans (Fr.modInst_ne st1 i _ hi (fun x hx => hx))
-          generalize (st1.modInst i fun x => { x with elapsed := x.elapsed + 1 }) = st2 at h2 ⊢
-          refine h2.trans ?_
-          split
-          · exact ih2 _ _ _ _ _
-          · rename_i s _
-            have hc := ih3 i (resume P.code (.comp i) st2.time cf s) st2
-            generalize composeHandle P S cf n i (resume P.code (.comp i) st2.time cf s) st2 = r at hc ⊢
-            obtain ⟨st3, cr⟩ := r
-            cases cr with
-            | aborted => exact hc
-            | done =>
-              exact (Fr.then_modInst hc i (fun x => { x with co := none }) (fun x => ⟨rfl, rfl⟩) (fun x h => h)).trans
-                (ih2 _ _ _ _ _)
-            | yielded y s' =>
-              cases y with
-              | endScen => exact hc.trans ((stop_fr n).1 _ _)
-              | endSim => exact hc.trans ((stop_fr n).1 _ _)
-              | acts a =>
-                exact (Fr.then_modInst hc i (fun x => { x with co := some s' }) (fun x => ⟨rfl, rfl⟩) (fun x h => h)).trans
-                  (ih2 _ _ _ _ _)
+        · exact ih2 _ _ _ _
+        · rename_i s _
+          have hc := ih3 i (resume P.code (.comp i) st2.time cf s) st2
+          generalize composeHandle P cf n i (resume P.code (.comp i) st2.time cf s) st2 = r at hc ⊢
+          obtain ⟨st3, cr⟩ := r
+          cases cr with
+          | aborted => exact hc
+          | done =>
+            exact (Fr.then_modInst hc i (fun x => { x with co := none }) (fun x => ⟨rfl, rfl⟩) (fun x h => h)).trans
+              (ih2 _ _ _ _)
+          | yielded y s' =>
+            cases y with
+            | endScen => exact hc.trans ((stop_fr n).1 _ _)
+            | endSim => exact hc.trans ((stop_fr n).1 _ _)
+            | acts a =>
+              exact (Fr.then_modInst hc i (fun x => { x with co := some s' }) (fun x => ⟨rfl, rfl⟩) (fun x h => h)).trans
+                (ih2 _ _ _ _)
     · simp only [afterCompose]
       split
       · exact (stop_fr n).1 _ _
-      · split
-        · exact Fr.refl _
-        · have h := evalTermWhen_fr P cls.termWhen st
-          split
-          · rename_i st' heq; rw [heq] at h; exact h.trans ((stop_fr n).1 _ _)
-          · rename_i st' heq; rw [heq] at h; exact h
+      · have h := evalTermWhen_fr P cls.termWhen st
+        split
+        · rename_i st' heq; rw [heq] at h; exact h.trans ((stop_fr n).1 _ _)
+        · rename_i st' heq; rw [heq] at h; exact h
     · simp only [composeHandle]
       have h0 : Fr st (st.emits out.log) := Fr.emits _ _
       split
@@ -289,7 +263,7 @@ theorem scen_fr (P : Prog) (S : Sem) (cf : Nat) (n : Nat) :
         have hj : j ≠ 0 := by intro h; subst h; exact ht (by simp)
         have hr : 0 ∉ rest := fun h => ht (by simp [h])
         have h := ih1 j st hj
-        generalize stepScen P S cf n j st = r at h ⊢
+        generalize stepScen P cf n j st = r at h ⊢
         obtain ⟨st', ret⟩ := r
         simp only
         split
@@ -323,8 +297,8 @@ theorem stepMons_fr (P : Prog) (cf i : Nat) (mons : List MonInst) : ∀ (j : Nat
       obtain ⟨st2, rest', es', et'⟩ := r
       exact h0.trans h1
 
-theorem mon_fr (P : Prog) (S : Sem) (cf : Nat) (n : Nat) :
-    (∀ i st, Fr st (runMonitors P S cf n i st).1) ∧ (∀ l r st, Fr st (monSubs P S cf n l r st).1) := by
+theorem mon_fr (P : Prog) (cf : Nat) (n : Nat) :
+    (∀ i st, Fr st (runMonitors P cf n i st).1) ∧ (∀ l r st, Fr st (monSubs P cf n l r st).1) := by
   induction n with
   | zero =>
     refine ⟨fun i st => ?_, fun l r st => ?_⟩
@@ -344,7 +318,7 @@ theorem mon_fr (P : Prog) (S : Sem) (cf : Nat) (n : Nat) :
       split
       · exact h1
       · have h2 := ih2 (st2.inst i).subs (if es = true then MRet.endSim else MRet.none) st2
-        generalize monSubs P S cf n (st2.inst i).subs (if es = true then MRet.endSim else MRet.none) st2 = r at h2 ⊢
+        generalize monSubs P cf n (st2.inst i).subs (if es = true then MRet.endSim else MRet.none) st2 = r at h2 ⊢
         obtain ⟨st3, sub⟩ := r
         simp only
         split
@@ -358,7 +332,7 @@ theorem mon_fr (P : Prog) (S : Sem) (cf : Nat) (n : Nat) :
       | cons j rest =>
         simp only [monSubs]
         have h0 := ih1 j st
-        generalize runMonitors P S cf n j st = r0 at h0 ⊢
+        generalize runMonitors P cf n j st = r0 at h0 ⊢
         obtain ⟨st1, rj⟩ := r0
         simp only
         split
@@ -429,8 +403,8 @@ theorem evalTermWhen_false (P : Prog) (l : List Nat) : ∀ st : St,
       · simpa using hv
       · exact ih _ h c' hc'
 
-theorem afterCompose_cont (P : Prog) (S : Sem) (cf n i : Nat) (cls : ScenCls) (cd : Bool) (st : St)
-    (h : (afterCompose P S cf n i cls false cd st).2 = .cont) :
+theorem afterCompose_cont (P : Prog) (cf n i : Nat) (cls : ScenCls) (cd : Bool) (st : St)
+    (h : (afterCompose P cf n i cls cd st).2 = .cont) :
     ∀ c ∈ cls.termWhen, P.code.cond c st.time = false := by
   cases n with
   | zero => simp [afterCompose] at h
@@ -438,19 +412,12 @@ theorem afterCompose_cont (P : Prog) (S : Sem) (cf n i : Nat) (cls : ScenCls) (c
     simp only [afterCompose] at h
     split at h
     · simp at h
-    · simp only [Bool.false_eq_true, if_false] at h
-      have := evalTermWhen_false P cls.termWhen st
+    · have := evalTermWhen_false P cls.termWhen st
       generalize evalTermWhen P cls.termWhen st = r at h this
       obtain ⟨st', b⟩ := r
       cases b with
       | true => simp at h
       | false => exact this rfl
-
-theorem checkReqs_zero (P : Prog) (S : Sem) (st : St) :
-    (checkReqs P S 0 st).2 = false ∧ (checkReqs P S 0 st).1.insts = st.insts ∧ (checkReqs P S 0 st).1.time = st.time := by
-  unfold checkReqs
-  simp only [bne_self_eq_false, Bool.and_false, Bool.false_eq_true, if_false]
-  split <;> simp [St.emit]
 
 /-- the top-level scenario may continue past clock `t` -/
 def ScenCont (P : Prog) (t : Nat) : Prop :=
@@ -458,22 +425,18 @@ def ScenCont (P : Prog) (t : Nat) : Prop :=
   ∀ c ∈ (P.scens.getD 0 default).termWhen, P.code.cond c t = false
 
 /-- what `dynamicScenario._step()` of the top-level scenario establishes when it returns `None` -/
-theorem stepScen_top (P : Prog) (S : Sem) (cf n : Nat) (st : St) (hw : WF st) (hcls : (st.inst 0).cls = 0)
+theorem stepScen_top (P : Prog) (cf n : Nat) (st : St) (hw : WF st) (hcls : (st.inst 0).cls = 0)
     (hel : (st.inst 0).elapsed = st.time) :
-    WF (stepScen P S cf n 0 st).1 ∧ ((stepScen P S cf n 0 st).1.inst 0).cls = 0 ∧
-    ((stepScen P S cf n 0 st).2 = .cont →
-      ((stepScen P S cf n 0 st).1.inst 0).elapsed = st.time + 1 ∧ ScenCont P st.time) := by
+    WF (stepScen P cf n 0 st).1 ∧ ((stepScen P cf n 0 st).1.inst 0).cls = 0 ∧
+    ((stepScen P cf n 0 st).2 = .cont →
+      ((stepScen P cf n 0 st).1.inst 0).elapsed = st.time + 1 ∧ ScenCont P st.time) := by
   cases n with
   | zero => simp only [stepScen]; exact ⟨(Fr.fail _ _ hw).1, by rw [(Fr.fail _ _ hw).2.2]; exact hcls, by simp⟩
   | succ n =>
     simp only [stepScen]
-    obtain ⟨c1, c2, c3⟩ := checkReqs_zero P S st
-    have cfr := checkReqs_fr P S 0 st
-    generalize checkReqs P S 0 st = r at c1 c2 c3 cfr ⊢
-    obtain ⟨st1, b⟩ := r
-    simp only at c1 c2 c3
-    subst c1
-    simp only
+    obtain ⟨c2, c3, _⟩ := checkReqs_insts P 0 st
+    have cfr := checkReqs_fr P 0 st
+    generalize checkReqs P 0 st = st1 at c2 c3 cfr ⊢
     have hi1 : ∀ k, st1.inst k = st.inst k := fun k => by simp [St.inst, c2]
     obtain ⟨hw1, _, _⟩ := cfr hw
     split
@@ -503,27 +466,27 @@ theorem stepScen_top (P : Prog) (S : Sem) (cf n : Nat) (st : St) (hw : WF st) (h
       -- everything after the increment keeps instance 0's counters; `cont` only after the terminate-when loop
       have fin : ∀ (cd : Bool) (st3 : St), WF st3 → (st3.inst 0).elapsed = st.time + 1 → (st3.inst 0).cls = 0 →
           st3.time = st.time →
-          WF (afterCompose P S cf n 0 (P.scens.getD (st.inst 0).cls default) (S.dynReqAsTemporal && (0 != 0)) cd st3).1 ∧
-          ((afterCompose P S cf n 0 (P.scens.getD (st.inst 0).cls default) (S.dynReqAsTemporal && (0 != 0)) cd st3).1.inst 0).cls = 0 ∧
-          ((afterCompose P S cf n 0 (P.scens.getD (st.inst 0).cls default) (S.dynReqAsTemporal && (0 != 0)) cd st3).2 = .cont →
-            ((afterCompose P S cf n 0 (P.scens.getD (st.inst 0).cls default) (S.dynReqAsTemporal && (0 != 0)) cd st3).1.inst 0).elapsed = st.time + 1 ∧
+          WF (afterCompose P cf n 0 (P.scens.getD (st.inst 0).cls default) cd st3).1 ∧
+          ((afterCompose P cf n 0 (P.scens.getD (st.inst 0).cls default) cd st3).1.inst 0).cls = 0 ∧
+          ((afterCompose P cf n 0 (P.scens.getD (st.inst 0).cls default) cd st3).2 = .cont →
+            ((afterCompose P cf n 0 (P.scens.getD (st.inst 0).cls default) cd st3).1.inst 0).elapsed = st.time + 1 ∧
             ScenCont P st.time) := by
         intro cd st3 w3 e3 c3' t3
-        obtain ⟨w4, s4, s4'⟩ := (scen_fr P S cf n).2.1 0 (P.scens.getD (st.inst 0).cls default) (S.dynReqAsTemporal && (0 != 0)) cd st3 w3
+        obtain ⟨w4, s4, s4'⟩ := (scen_fr P cf n).2.1 0 (P.scens.getD (st.inst 0).cls default) cd st3 w3
         refine ⟨w4, by rw [s4', c3'], fun hcont => ⟨by rw [s4, e3], hlimit, ?_⟩⟩
-        have := afterCompose_cont P S cf n 0 (P.scens.getD (st.inst 0).cls default) cd st3 (by simpa using hcont)
+        have := afterCompose_cont P cf n 0 (P.scens.getD (st.inst 0).cls default) cd st3 hcont
         rw [hcls, t3] at this
         exact this
       split
       · exact fin true st2 hw2 he2 hc2 ht2
       · rename_i s _
-        have hfr := (scen_fr P S cf n).2.2.1 0 (resume P.code (.comp 0) st2.time cf s) st2 hw2
-        have hext := (scen_ext P S cf n).2.2.1 0 (resume P.code (.comp 0) st2.time cf s) st2 (by
+        have hfr := (scen_fr P cf n).2.2.1 0 (resume P.code (.comp 0) st2.time cf s) st2 hw2
+        have hext := (scen_ext P cf n).2.2.1 0 (resume P.code (.comp 0) st2.time cf s) st2 (by
           intro e he
           obtain ⟨l', hl', hC⟩ := resume_log P.code (.comp 0) st2.time cf s
           rw [hl'] at he
           exact isScen_of_comp 0 e (hC e (by simpa using he)))
-        generalize composeHandle P S cf n 0 (resume P.code (.comp 0) st2.time cf s) st2 = r at hfr hext ⊢
+        generalize composeHandle P cf n 0 (resume P.code (.comp 0) st2.time cf s) st2 = r at hfr hext ⊢
         obtain ⟨st3, cr⟩ := r
         obtain ⟨w3, s3, s3'⟩ := hfr
         have t3 : st3.time = st.time := hext.1.trans ht2
@@ -549,32 +512,36 @@ theorem stepScen_top (P : Prog) (S : Sem) (cf n : Nat) (st : St) (hw : WF st) (h
 section
 variable (P : Prog) (S : Sem) (cf fuel : Nat) (sched : Nat → Nat → List Nat)
 
-theorem evalTermSim_fr (l : List Nat) : ∀ st : St, Fr st (evalTermSim P l st).1 := by
-  induction l with
-  | nil => intro st; exact Fr.refl _
-  | cons c rest ih =>
-    intro st
-    simp only [evalTermSim]
+theorem termSimTop_fr (st : St) : Fr st (termSimTop P fuel st).1 :=
+  Fr.of_insts (termSimTop_logOnly P fuel st).2.1
+
+theorem recordState_fr (st : St) : Fr st (recordState P fuel st) := by
+  unfold recordState
+  simp only
+  have hC : ∀ (f : ScenCls → List Ev) (st : St), Fr st (recTree P f fuel 0 st) := fun f st =>
+    Fr.of_insts ((rec_logOnly P f (fun _ => true) (fun _ _ _ => rfl) fuel).1 0 st).2.1
+  have h1 : Fr st (if st.time = 0 then recTree P recInitEvs fuel 0 st else st) := by
     split
-    · exact Fr.emit _ _
-    · exact (Fr.emit _ _).trans (ih _)
+    · exact hC _ _
+    · exact Fr.refl _
+  exact (h1.trans (hC _ _)).trans (Fr.emit _ _)
 
 theorem runPhase_fr (ph : Phase) (hph : ph ≠ .scen) (st : St) (lp : Loop) :
-    Fr st (runPhase P S cf fuel sched ph st lp).1 := by
+    Fr st (runPhase P cf fuel sched ph st lp).1 := by
   cases ph with
   | scen => exact absurd rfl hph
-  | record => exact Fr.emits _ _
+  | record => exact recordState_fr P fuel st
   | monitors =>
     simp only [runPhase]
-    have h := (mon_fr P S cf fuel).1 0 st
-    generalize runMonitors P S cf fuel 0 st = r at h ⊢
+    have h := (mon_fr P cf fuel).1 0 st
+    generalize runMonitors P cf fuel 0 st = r at h ⊢
     obtain ⟨st1, mr⟩ := r
     exact h
   | retPending => exact Fr.refl _
   | termSimWhen =>
     simp only [runPhase]
-    have h := evalTermSim_fr P P.termSimWhen st
-    generalize evalTermSim P P.termSimWhen st = r at h ⊢
+    have h := termSimTop_fr P fuel st
+    generalize termSimTop P fuel st = r at h ⊢
     obtain ⟨st1, b⟩ := r
     cases b <;> exact h
   | maxSteps => exact Fr.refl _
@@ -592,15 +559,15 @@ theorem runPhase_fr (ph : Phase) (hph : ph ≠ .scen) (st : St) (lp : Loop) :
   | update => exact Fr.emit _ _
 
 theorem runPhases_fr : ∀ (phases : List Phase), Phase.scen ∉ phases → ∀ (st : St) (lp : Loop),
-    Fr st (runPhases P S cf fuel sched phases st lp).1 := by
+    Fr st (runPhases P cf fuel sched phases st lp).1 := by
   intro phases
   induction phases with
   | nil => intro _ st lp; exact Fr.refl _
   | cons ph rest ih =>
     intro hn st lp
     rw [runPhases]
-    have h := runPhase_fr P S cf fuel sched ph (fun h => hn (by simp [h])) st lp
-    generalize runPhase P S cf fuel sched ph st lp = r at h ⊢
+    have h := runPhase_fr P cf fuel sched ph (fun h => hn (by simp [h])) st lp
+    generalize runPhase P cf fuel sched ph st lp = r at h ⊢
     obtain ⟨st1, lp1, res⟩ := r
     cases res with
     | some tt => exact h
@@ -612,15 +579,15 @@ theorem runPhases_fr : ∀ (phases : List Phase), Phase.scen ∉ phases → ∀ 
 
 /-- once a termination reason is pending, the iteration ends at the `return` of step 4 -/
 theorem pending_returns (rest : List Phase) (st : St) (lp : Loop) (hp : lp.pending.isSome = true) :
-    (runPhases P S cf fuel sched (.record :: .monitors :: .retPending :: rest) st lp).2.isSome = true ∨
-    (runPhases P S cf fuel sched (.record :: .monitors :: .retPending :: rest) st lp).1.abort.isSome = true := by
+    (runPhases P cf fuel sched (.record :: .monitors :: .retPending :: rest) st lp).2.isSome = true ∨
+    (runPhases P cf fuel sched (.record :: .monitors :: .retPending :: rest) st lp).1.abort.isSome = true := by
   rw [runPhases]
   simp only [runPhase]
   split
   · right; assumption
   · rw [runPhases]
     simp only [runPhase]
-    generalize runMonitors P S cf fuel 0 (st.emits (recordEvs P st.time)) = r
+    generalize runMonitors P cf fuel 0 (recordState P fuel st) = r
     obtain ⟨st1, mr⟩ := r
     simp only
     split
@@ -640,22 +607,22 @@ theorem pending_returns (rest : List Phase) (st : St) (lp : Loop) (hp : lp.pendi
 def Top (st : St) : Prop := WF st ∧ (st.inst 0).cls = 0 ∧ (st.inst 0).elapsed = st.time
 
 theorem iter_top (st : St) (hT : Top st)
-    (hn : (runPhases P S cf fuel sched Phase.documented st {}).2 = none)
-    (hab : (runPhases P S cf fuel sched Phase.documented st {}).1.abort = none) :
-    WF (runPhases P S cf fuel sched Phase.documented st {}).1 ∧
-    ((runPhases P S cf fuel sched Phase.documented st {}).1.inst 0).cls = 0 ∧
-    ((runPhases P S cf fuel sched Phase.documented st {}).1.inst 0).elapsed = st.time + 1 ∧
+    (hn : (runPhases P cf fuel sched Phase.documented st {}).2 = none)
+    (hab : (runPhases P cf fuel sched Phase.documented st {}).1.abort = none) :
+    WF (runPhases P cf fuel sched Phase.documented st {}).1 ∧
+    ((runPhases P cf fuel sched Phase.documented st {}).1.inst 0).cls = 0 ∧
+    ((runPhases P cf fuel sched Phase.documented st {}).1.inst 0).elapsed = st.time + 1 ∧
     ScenCont P st.time := by
   obtain ⟨hw, hcls, hel⟩ := hT
   unfold Phase.documented at hn hab ⊢
   rw [runPhases] at hn hab ⊢
   simp only [runPhase] at hn hab ⊢
-  obtain ⟨t1, t2, t3⟩ := stepScen_top P S cf fuel st hw hcls hel
-  generalize stepScen P S cf fuel 0 st = r at hn hab t1 t2 t3 ⊢
+  obtain ⟨t1, t2, t3⟩ := stepScen_top P cf fuel st hw hcls hel
+  generalize stepScen P cf fuel 0 st = r at hn hab t1 t2 t3 ⊢
   obtain ⟨st1, ret⟩ := r
-  have tail : ∀ lp, Fr st1 (runPhases P S cf fuel sched
+  have tail : ∀ lp, Fr st1 (runPhases P cf fuel sched
       [.record, .monitors, .retPending, .termSimWhen, .maxSteps, .behaviors, .actions, .simStep, .clock, .update] st1 lp).1 :=
-    fun lp => runPhases_fr P S cf fuel sched _ (by simp) st1 lp
+    fun lp => runPhases_fr P cf fuel sched _ (by simp) st1 lp
   cases ret with
   | abort =>
     exfalso
@@ -686,7 +653,7 @@ theorem iter_top (st : St) (hT : Top st)
     · simp_all
     · split at hn
       · simp_all
-      · rcases pending_returns P S cf fuel sched _ st1 { pending := some Term.scenarioComplete } rfl with h | h
+      · rcases pending_returns P cf fuel sched _ st1 { pending := some Term.scenarioComplete } rfl with h | h
         · rw [hn] at h; simp at h
         · rw [hab] at h; simp at h
   | endSim =>
@@ -696,7 +663,7 @@ theorem iter_top (st : St) (hT : Top st)
     · simp_all
     · split at hn
       · simp_all
-      · rcases pending_returns P S cf fuel sched _ st1 { pending := some Term.scenarioComplete } rfl with h | h
+      · rcases pending_returns P cf fuel sched _ st1 { pending := some Term.scenarioComplete } rfl with h | h
         · rw [hn] at h; simp at h
         · rw [hab] at h; simp at h
 
@@ -710,9 +677,9 @@ theorem runLoop_top (hS : S.order = Phase.documented) : ∀ (n : Nat) (st : St),
   | succ n ih =>
     intro st hat hT hist tt
     simp only [runLoop, hS]
-    have hp := iter_scen P S cf fuel sched st.time st {} hat rfl (by simp)
-    have ht := iter_top P S cf fuel sched st hT
-    generalize runPhases P S cf fuel sched Phase.documented st {} = r at hp ht ⊢
+    have hp := iter_scen P cf fuel sched st.time st {} hat rfl (by simp)
+    have ht := iter_top P cf fuel sched st hT
+    generalize runPhases P cf fuel sched Phase.documented st {} = r at hp ht ⊢
     obtain ⟨st1, res⟩ := r
     cases res with
     | some tt' =>
